@@ -9,7 +9,7 @@ require (
 	google.golang.org/grpc v1.9.2
 )
 
-replace github.com/youzan/ZanRedisDB => /tmp/sv-C12-14166
+replace github.com/youzan/ZanRedisDB => /tmp/sv-C20-3576
 
 replace github.com/youzan/gorocksdb => /verif/build/third_party/gorocksdb
 
